@@ -495,9 +495,9 @@ def c15(prop, tier, seed):
                 ("MCAnnotations", "Annotations_sim.cfg", dict(simulate="num=40", depth=4, seed=seed, workers=8))]
     return generic_replay(prop, tier, seed, runs, "replay-annot", "model_checking",
                           "annotation-map state machine: 5 initial maps (nil, empty, foreign keys, a used CDI key, a CDI key with an unqualified "
-                          "device after two good ones) x every update from 14 plugin names x 13 device ids (lengths 61..64 around the limit, every "
-                          "character class first/middle/last, '/', ':' and non-ASCII in the id) x 8 device lists, sequences of 1 (quick, exhaustive), "
-                          "2 (thorough, exhaustive) and 3 (random) updates, then ParseAnnotations. The code may refuse more than the model (counted, "
+                          "device after two good ones) x every update from 16 plugin names x 15 device ids (lengths 61..64 around the limit, every "
+                          "character class first/middle/last - ASCII classes, non-ASCII letters and digits - '/', ':') x 8 device lists, sequences of 1 (quick, exhaustive), "
+                          "2 (thorough, exhaustive over a core universe of 6 x 6 x 4) and 3 (random) updates, then ParseAnnotations. The code may refuse more than the model (counted, "
                           "not a violation); accepting what the rule forbids, touching the map on failure, an illegal key, a value that does not "
                           "parse back, or non-empty results with a parse error are violations. non-trivial = at least one update succeeded",
                           ["legality of a key is decided by an independent regular-expression transcription of the Kubernetes rule in the harness "
